@@ -75,7 +75,7 @@ func ruleTIM1(p *Program) *RuleResult {
 			}
 		}
 	}
-	r.floor("duration_divisions", 2)
+	r.floor("duration_divisions", 1)
 	return r
 }
 
@@ -297,7 +297,7 @@ func ruleTIM25(p *Program) *RuleResult {
 			}
 		}
 	}
-	r.floor("constructions", 10)
+	r.floor("constructions", 8)
 	return r
 }
 
